@@ -30,6 +30,14 @@ pub struct RefSign {
     /// The last configuration attempt failed and no block has been digested since: whether the sign still knows
     /// the type and size it was told in the failed attempt is not in the statement (don't-care 4).
     pub cfg_open: bool,
+    /// The current configuration attempt delivered a block that describes a sign without width or height: whether
+    /// such a block counts as accepted is not in the statement, so the attempt may end received or failed.
+    pub cfg_zero: bool,
+    /// sign type before the current configuration attempt's block (what a sign that refuses the block keeps)
+    pub prev_typ: Option<SignType>,
+    /// This instance only bounds a search (every use except the lock-step oracle of C13): `adopt` then forgets the
+    /// oracle-only fields, so that the shadow does not split states the real object does not distinguish.
+    pub bounds_only: bool,
 }
 
 /// What the statement fixes about `pages()` after a step.
@@ -56,17 +64,20 @@ pub enum Open {
     ReceivedOrFailed,
     /// count message while not receiving and a complete page is buffered: may or may not be stored
     MayFlushWhileIdle,
+    /// configuration attempt with a zero-sized block: configuration received or failed are both allowed
+    ConfigReceivedOrFailed,
 }
 
 impl RefSign {
     pub fn new(addr: u16, automatic: bool) -> Self {
-        RefSign { addr, automatic, state: State::Unconfigured, w: 0, h: 0, typ: None, pages: vec![], page_dims: vec![], buf: vec![], count: 0, bad_page: false, clean: true, stream: vec![], track_stream: false, cfg_open: false }
+        RefSign { addr, automatic, state: State::Unconfigured, w: 0, h: 0, typ: None, pages: vec![], page_dims: vec![], buf: vec![], count: 0, bad_page: false, clean: true, stream: vec![], track_stream: false, cfg_open: false, cfg_zero: false, prev_typ: None, bounds_only: true }
     }
 
     fn reset(&mut self) {
-        let track = self.track_stream;
+        let (track, bounds_only) = (self.track_stream, self.bounds_only);
         *self = RefSign::new(self.addr, self.automatic);
         self.track_stream = track;
+        self.bounds_only = bounds_only;
     }
 
     pub fn receiving(&self) -> bool {
@@ -133,6 +144,7 @@ impl RefSign {
                 match op {
                     Operation::ReceiveConfig => {
                         self.state = State::ConfigInProgress;
+                        self.cfg_zero = false;
                     }
                     Operation::ReceivePixels => {
                         self.state = State::PixelsInProgress;
@@ -157,11 +169,13 @@ impl RefSign {
                     State::ConfigInProgress => {
                         if *off == 0 && d.len() == 16 {
                             if let Some((w, h)) = ref_block_dims(d) {
+                                self.prev_typ = self.typ;
                                 self.w = w;
                                 self.h = h;
                                 self.typ = ref_block_type(d);
                                 self.count += 1;
-                                self.cfg_open = false;
+                                self.cfg_open = w == 0 || h == 0;
+                                self.cfg_zero = self.cfg_zero || w == 0 || h == 0;
                             }
                         }
                     }
@@ -191,6 +205,12 @@ impl RefSign {
                         self.state = if matched { State::ConfigReceived } else { State::ConfigFailed };
                         if !matched {
                             self.cfg_open = true;
+                        }
+                        if self.cfg_zero {
+                            self.cfg_open = true;
+                            self.flush();
+                            self.count = 0;
+                            return (None, Open::ConfigReceivedOrFailed);
                         }
                         self.flush();
                         self.count = 0;
@@ -235,6 +255,16 @@ impl RefSign {
         }
     }
 
+    /// For shadows that only bound a search: forget what only the lock-step oracle of C13 needs, so that the
+    /// shadow does not split states the real object does not distinguish.
+    pub fn normalize_for_bounds(&mut self) {
+        self.clean = true;
+        self.cfg_open = false;
+        self.cfg_zero = false;
+        self.prev_typ = None;
+        self.stream.clear();
+    }
+
     /// `step` plus the rule for `pages()` after it.
     pub fn step2(&mut self, m: &Message<'_>) -> (Option<Message<'static>>, Open, PagesRule) {
         let before = self.state;
@@ -275,17 +305,25 @@ impl RefSign {
     }
 
     /// Continues from the implementation's pages (PagesRule::Adopt).
-    pub fn adopt_pages(&mut self, pages: Vec<Vec<u8>>) {
-        self.page_dims = pages.iter().map(|_| (self.w, self.h)).collect();
+    pub fn adopt_pages(&mut self, pages: Vec<Vec<u8>>, dims: Vec<(u32, u32)>) {
+        self.page_dims = dims;
         self.pages = pages;
     }
 
     /// Applies the implementation's choice for an open step.
     pub fn adopt(&mut self, open: Open, impl_state: State, impl_pages: usize) {
+        if self.bounds_only {
+            self.normalize_for_bounds();
+        }
         match open {
             Open::No => {}
             Open::ReceivedOrFailed => {
                 if impl_state == State::PixelsFailed || impl_state == State::PixelsReceived {
+                    self.state = impl_state;
+                }
+            }
+            Open::ConfigReceivedOrFailed => {
+                if impl_state == State::ConfigReceived || impl_state == State::ConfigFailed {
                     self.state = impl_state;
                 }
             }
